@@ -9,7 +9,7 @@ def spec(tier):
     if tier == "thorough":
         keys = "none,oct:32,oct:64,oct:128,rsa:2048,rsa:3072,rsapss:2048,ec:P-256,ec:P-384,ec:P-521,ec:secp256k1,okp:Ed25519,okp:Ed448,oct:0,okp:X25519"
     # configured alg: none, one per family, INVAL; key alg attribute: absent, "none", matching family members, unknown
-    return ("prov=0,1;route=0..9;cfg=0,1,2,4,7,8,10,13,14,15;keys=%s;kalg=-1,0,1,4,7,8,9,10,13,14,15;pub=0,1;"
+    return ("prov=0,1;route=0..9,11;cfg=0,1,2,4,7,8,10,13,14,15;keys=%s;kalg=-1,0,1,4,7,8,9,10,13,14,15;pub=0,1;"
             "hdr=0..63;sig=0,1,2,6,7,8,9;op=v,g" % keys)
 
 
